@@ -307,7 +307,9 @@ class Check(core.CheckBase):  # pylint: disable=too-many-instance-attributes
         try:
             Recorder.events = []
             Recorder.cache = {}
-            vector = cls(list(start))
+            source = list(start)        # the caller's own list: the vector and a twin built from it must not hold on to it
+            vector = cls(source)
+            twin = cls(source)
         except Exception:  # pylint: disable=broad-except
             self.stats['start_rejected'] += 1
             return found
@@ -490,6 +492,19 @@ class Check(core.CheckBase):  # pylint: disable=too-many-instance-attributes
                 self.consequence(cls, param, vector, violation)
                 if found:
                     break
+        # the list the vector was built from still belongs to the caller, and the twin built from the same list is another vector
+        if not found:
+            self.stats['constructor_argument_checks'] += 1
+            identical = lambda left, right: len(left) == len(right) and all(a is b or a == b for a, b in zip(left, right))
+            if not identical(source, start):
+                violation('argument-aliased', 'constructor', 'edits through the vector changed the list it was constructed from')
+            elif not identical(twin._items, start):  # pylint: disable=protected-access
+                violation('argument-aliased', 'constructor', 'edits through one vector changed a second vector built from the same list')
+            else:
+                held = list(vector._items)  # pylint: disable=protected-access
+                del source[:]
+                if not identical(vector._items, held) or not identical(twin._items, start):  # pylint: disable=protected-access
+                    violation('argument-aliased', 'constructor', 'clearing the caller\'s list emptied the vector built from it')
         # last: the owner of an item changes it while it sits in the vector. The size bookkeeping cannot know (not an edit
         # through the sequence interface), but what compose() writes must still be consistent: prefix == body, round trip
         if not found and model and hasattr(model[0], '__dict__') and \
